@@ -238,6 +238,7 @@ func contentRulesSSA(r *Run, onceRule, keyRule, dataRule, scopeRule string) {
 		paths, ok := walkPathsUnrolled(closure, nil, inline, 5000)
 		help, data := paramOfType(closure, isHelp), paramOfType(closure, isData)
 		okOnce, okScope, okData := ok && help != nil, ok && help != nil, false
+		okExact := true
 		why := ""
 		nSucc := 0
 		for _, p := range paths {
@@ -260,12 +261,40 @@ func contentRulesSSA(r *Run, onceRule, keyRule, dataRule, scopeRule string) {
 				if cr.blockWith != 1 {
 					okOnce = false
 				}
+				// what it yields is the rendering of its block and nothing else: template.HTML(<result of BlockWith>),
+				// no other function value called, nothing put in front or behind
+				res := p.resolve(p.results[0])
+				var inner ssa.Value
+				switch x := res.(type) {
+				case *ssa.ChangeType:
+					inner = p.resolve(x.X)
+				case *ssa.Convert:
+					inner = p.resolve(x.X)
+				}
+				fromBlock := false
+				if ex, isEx := inner.(*ssa.Extract); isEx && ex.Index == 0 {
+					if c, isCall := ex.Tuple.(*ssa.Call); isCall && c.Call.IsInvoke() && c.Call.Method.Name() == "BlockWith" {
+						fromBlock = true
+					}
+				}
+				if !fromBlock {
+					okExact = false
+				}
+				for _, ev := range p.events {
+					if c, isCall := ev.(*ssa.Call); isCall && !c.Call.IsInvoke() && c.Call.StaticCallee() == nil {
+						if _, isB := c.Call.Value.(*ssa.Builtin); !isB {
+							okExact = false // calls another function value (an earlier block, a hook)
+						}
+					}
+				}
 			}
 		}
 		if nSucc == 0 {
 			okOnce = false
 		}
 		say(onceRule, okOnce, cf.Name(), "stored closure renders the block once", w.Pos(closure.Pos()), "on every success path", "every contentOf must emit the stored block exactly once")
+		say(onceRule, okExact, cf.Name(), "stored closure yields exactly its block", w.Pos(closure.Pos()), "template.HTML of what BlockWith rendered, nothing in front or behind, no other function called",
+			"what contentOf emits for a name must be the one block stored under it: the stored closure combines its block with something else (an earlier block, a prefix) or calls another function")
 		say(scopeRule, okScope, cf.Name(), "stored closure: per-call child; data set on it; handed to BlockWith", w.Pos(closure.Pos()), "the block runs in a fresh child of the defining scope",
 			"the stored/default block must be rendered through BlockWith with its own child scope: "+why)
 		say(dataRule, okData && okScope, cf.Name(), "stored closure ranges over its own data parameter", w.Pos(closure.Pos()), "the caller's data map, unmodified", "the data passed by the template must be the map whose entries are bound in the child scope")
